@@ -2,10 +2,10 @@ CONSTANTS
   Dev = {}
   Mode = "dgram"
   NConn = 1
-  MaxReq = 4
+  MaxReq = 6
   QCapG = 1
   Kinds = {"single", "stream2", "fail", "rfail", "empty"}
-  MaxOps = 9
+  MaxOps = 12
   MaxCredit = 5
   MaxTick = 3
   Limit = 2
